@@ -204,6 +204,24 @@ fn oracle(cfg: &SchedCfg, run: &SchedRun) -> Option<(String, String)> {
             }
         }
     }
+    // C09: no window switch unless another full window (of the size in force after the switch) still fits before the final
+    // step-size window: a switch at draw d leaves `current_window_size + d <= final_step_size_window` (early phase: the early switch frequency)
+    {
+        let early_end = run.init_counters[1];
+        let mut prev_bg = run.init_counters[8];
+        for (d, rec) in run.draws.iter().enumerate() {
+            let d = d as u64;
+            if d >= cfg.num_tune || d >= final_window { break; }
+            let bg = rec.counters[8];
+            if bg < prev_bg || (bg == 0 && prev_bg == 0 && false) {
+                let next = if d < early_end { cfg.early_switch_freq } else { rec.counters[6] };
+                if next + d > final_window {
+                    return Some(("sched.switch_without_room".into(), format!("window switch at draw {d} although the next window of {next} draws does not fit before the final step-size window (starts at {final_window})")));
+                }
+            }
+            prev_bg = bg;
+        }
+    }
     // after warmup: base step size constant, step size within the jitter band
     if cfg.num_tune >= 1 && (cfg.num_tune as usize) < run.draws.len() && cfg.method != 2 {
         let bar = run.draws[cfg.num_tune as usize - 1].step_size_bar;
